@@ -25,6 +25,11 @@ CHECKS = {
    technique="property-based testing (proptest): grammar-generated argument vectors, differential against real git (GIT_TRACE dispatch/alias expansion), recording git stand-in end-to-end",
    text="Generated argument vectors and alias tables; the in-process parser's reconstruction must be the identity, or (only with a top-level help/version token) a vector that real git treats identically (exit, stdout, stderr compared on twin scratch repositories); the parser's sub-command and git-ai's alias resolution are compared with what real git dispatches/expands per GIT_TRACE; a sample of vectors is run through the real wrapper with a recording stand-in as git_path and the proxied argv compared.",
    note="Reference = git 2.39.5 in a scratch repository. Token pools are finite (grammar in c18.rs). Known findings F11, F20, F23, F24 are matched by root-cause signature; everything outside those families is strict."),
+ "C16": dict(
+   level="exploration", design="DESIGN.md §2 C16",
+   technique="property-based testing (proptest, in-process): model-based derivation pipeline + arbitrary inputs; invariants and metamorphic relations on the tracker API",
+   text="In-process generated search against the library entry points. Pipeline family: files derived edit by edit with known ground truth, replaying the real checkpoint pipeline (fill -> update_attributions -> line projection) after every edit and comparing every line with a content-addressed reference model (unchanged text keeps its author, new non-blank text belongs to the reporter, whitespace-only edits change nothing), plus identical-text invariance, bounds / char-boundary checks and the line->char->line round trip. Arbitrary family: unrelated UTF-8 texts and arbitrary prior sets for totality and bounds. 100k cases quick, 3M thorough.",
+   note="Links /repo's library. Identical-text clause is evaluated on canonically sorted priors (tie-break by input order is not claimed). Among duplicate (filler) lines a whitespace edit that creates an off-diagonal equal line is judged weakly (documented R2 guard). Known findings F14/F14b/F15/F25 matched by signature."),
 }
 
 NOT_YET = "check not built yet (work in progress; see DESIGN.md section 2 for the plan)"
